@@ -624,7 +624,10 @@ class Routing(Stream):
             for route in routes[1:] + list((out.get('extra_routes') or {})):
                 if ocs[route] != ref and not (_is_err(ocs[route]) and _is_err(ref)):
                     fs.append(Failure('routes-disagree:%s:%s-vs-direct' % (case['variant'], route), '%s vs %s (%s)' % (ocs[route], ref, v)))
-        if _is_err(out.get('classic')):
+        # get_mask_freqs extracts an IMF only for first_mask_mode='if' (zero crossings / a given frequency involve no sift):
+        # without an extraction stage there is nothing for the iteration limit to govern
+        sifts = not (case['variant'] == 'get_mask_freqs' and dict((k, v2) for k, v2 in case.get('top', [])).get('first_mask_mode') != 'if')
+        if _is_err(out.get('classic')) and sifts:
             for route in allr:
                 if route in routes or route in (out.get('extra_routes') or {}):
                     if not _is_err(ocs[route]):
